@@ -1,4 +1,5 @@
 import WitnessVerif.Model.Bastion
+import WitnessVerif.Props.C04
 import WitnessVerif.Proofs.Frame
 /-
 C10 — the bastion add-checkpoint endpoint speaks the tlog-witness protocol.
@@ -85,5 +86,63 @@ theorem C10_200_means_stored (w : Cfg) (h : HCfg) (store : Store) (body : Bytes)
         subst h2
         rw [← h1] at h200
         exact (C10_200_only_if_accepted _ _ _ h200).1
+
+end C10
+
+namespace C10
+open Wit Bastion
+
+/-- End to end at byte level: when the endpoint answers 200, the request body parsed to
+    `(old, proof, cp)`, the submitted checkpoint is `text ++ "\n" ++ sigs`, and the response body is one
+    signature line `— name b64\n` whose signature the endpoint's witness verifier accepts over exactly
+    that submitted text (not over whatever else the witness may hold). -/
+theorem C10_200_body_cosigns_submitted (w : Cfg) (h : HCfg) (store : Store) (body : Bytes) (r : Resp) (out : Out)
+    (hs : serve w h store true body = (r, some out)) (h200 : r.status = 200) :
+    ∃ old proof cp text sigs s, parseBody body = some (old, proof, cp) ∧ cp = text ++ B.nl :: sigs ∧
+      r.body = Note.sigPrefix ++ s.name ++ [B.sp] ++ s.b64 ++ [B.nl] ∧
+      Note.Verified [h.witV] text s := by
+  unfold serve at hs
+  simp only [Bool.not_true, Bool.false_eq_true, if_false] at hs
+  split at hs
+  · simp at hs
+  · rename_i old proof cp hpb
+    split at hs
+    · simp at hs
+    · rename_i first rest hcut
+      split at hs
+      · simp at hs
+      · rename_i lid origin hfind
+        simp only [Prod.mk.injEq, Option.some.injEq] at hs
+        obtain ⟨h1, h2⟩ := hs
+        subst h2
+        rw [← h1] at h200
+        obtain ⟨herr, trusted, tcp, n, s, rest', hret, hparse, hsigs, hbody⟩ :=
+          C10_200_only_if_accepted origin h.witV _ h200
+        -- what the witness returned is text ++ "\n" ++ sigs' for the text of the submitted checkpoint
+        obtain ⟨text, sigs, sigs', signed, hcp, hret', hsigned, hopenText⟩ :=
+          C04.C04_text_identical w _ _ old cp proof herr
+        rw [hret] at hret'
+        simp only [Option.some.injEq] at hret'
+        subst hret'
+        -- the endpoint opened it under the witness verifier
+        have hopen : Note.open trusted [h.witV] = .ok n := by
+          unfold Cp.parseCheckpoint at hparse
+          split at hparse
+          · cases hparse
+          · rename_i n' ho
+            split at hparse
+            · split at hparse
+              · cases hparse
+              · split at hparse
+                · cases hparse
+                · simp only [Option.some.injEq, Prod.mk.injEq] at hparse
+                  rw [← hparse.2]; exact ho
+            · cases hparse
+        obtain ⟨_, hver, _⟩ := Note.open_spec trusted [h.witV] n hopen
+        have ht := hopenText [h.witV] n hopen
+        refine ⟨old, proof, cp, text, sigs, s, hpb, hcp, ?_, ?_⟩
+        · rw [← h1]; exact hbody
+        · have := hver s (by rw [hsigs]; exact List.mem_cons_self ..)
+          rw [ht] at this; exact this
 
 end C10
